@@ -179,11 +179,29 @@ pub(crate) fn apply_rules_on_link(
         product_paths.difference(&material_paths).cloned().collect();
     let deleted: BTreeSet<_> =
         material_paths.difference(&product_paths).cloned().collect();
+    // the path sets above are canonicalized, so the digests have to be looked
+    // up by canonicalized path as well
+    let materials_by_path: BTreeMap<VirtualTargetPath, &TargetDescription> =
+        src_link
+            .materials
+            .iter()
+            .filter_map(|(path, value)| {
+                canonicalize_path(path).map(|path| (path, value))
+            })
+            .collect();
+    let products_by_path: BTreeMap<VirtualTargetPath, &TargetDescription> =
+        src_link
+            .products
+            .iter()
+            .filter_map(|(path, value)| {
+                canonicalize_path(path).map(|path| (path, value))
+            })
+            .collect();
     let modified: BTreeSet<_> = material_paths
         .intersection(&product_paths)
         .cloned()
         .filter_map(|name| {
-            if src_link.materials[&name] != src_link.products[&name] {
+            if materials_by_path.get(&name) != products_by_path.get(&name) {
                 Some(name)
             } else {
                 None
